@@ -110,11 +110,13 @@ struct ChunkedBodyReader<R: Read> {
 
 impl<R: Read> Read for ChunkedBodyReader<R> {
     fn read(&mut self, buf: &mut [u8]) -> io::Result<usize> {
-        if self.finished {
+        // a zero-length read must not touch the decoder: its `Ok(0)` could not be told apart
+        // from the end of the body
+        if self.finished || buf.is_empty() {
             return Ok(0);
         }
         match self.decoder.read(buf) {
-            Ok(0) if !buf.is_empty() => {
+            Ok(0) => {
                 self.finished = true;
                 Ok(0)
             }
